@@ -130,16 +130,16 @@ class SimTransport(transports.Transport):
         if not keep_open:
             self.close()
 
-    def peer_reset(self):
-        self._loop.call_soon(self._reset)
+    def peer_reset(self, exc=None):
+        self._loop.call_soon(self._reset, exc)
 
-    def _reset(self):
+    def _reset(self, exc=None):
         if self.eof_from_peer and not self._closing:
             # After EOF asyncio has removed the read callback (streams keep the transport open for
             # writing), so a later RST is only noticed by the next write.
             self.fail_after = 0
             return
-        self._fatal(ConnectionResetError("sim: reset by peer"), "peer")
+        self._fatal(exc or ConnectionResetError("sim: reset by peer"), "peer")
 
     def pause(self):
         self._loop.call_soon(self._pause)
